@@ -307,7 +307,10 @@ func c15ReporterJobs(tier string) []*SeqJob {
 		kind := kind
 		jd := &SeqJob{Property: "C15", Name: fmt.Sprintf("reporter-message-faults-%s-dead-first-destination", kind), Shards: 4}
 		jd.Run = func(ctx *SeqCtx) { bfs(ctx, alphabet[:2], depth, execDead(kind)) }
-		jd.Replay = func(ops []string) (string, string) { c, d, _, _ := execDead(kind)(opIndex(alphabet[:2], ops)); return c, d }
+		jd.Replay = func(ops []string) (string, string) {
+			c, d, _, _ := execDead(kind)(opIndex(alphabet[:2], ops))
+			return c, d
+		}
 		if kind == "compact" || tier == "thorough" {
 			jobs = append(jobs, jd)
 		}
